@@ -766,6 +766,9 @@ impl ParserState {
                     && cache.has_pending_lexeme_bytes == has_pending
                 {
                     // Cache hit - return cloned mask
+                    #[cfg(feature = "verif_hooks")]
+                    crate::verif_hooks::BIAS_CACHE_HITS
+                        .fetch_add(1, std::sync::atomic::Ordering::Relaxed);
                     let d = t0.elapsed();
                     self.stats.compute_time_us += d.as_micros() as u64;
                     self.perf_counters.compute_bias.record(d);
@@ -773,6 +776,9 @@ impl ParserState {
                 }
             }
         }
+
+        #[cfg(feature = "verif_hooks")]
+        crate::verif_hooks::BIAS_CACHE_MISSES.fetch_add(1, std::sync::atomic::Ordering::Relaxed);
 
         let limits = self.limits.clone();
         let dfa = &mut self.lexer_mut().dfa;
@@ -811,6 +817,9 @@ impl ParserState {
         // Update cache when start is empty
         if start.is_empty() {
             let curr_state = self.lexer_state();
+            #[cfg(feature = "verif_hooks")]
+            crate::verif_hooks::BIAS_CACHE_STORES
+                .fetch_add(1, std::sync::atomic::Ordering::Relaxed);
             self.bias_cache = Some(BiasCache {
                 lexer_state: curr_state.lexer_state,
                 row_idx: curr_state.row_idx,
@@ -2803,15 +2812,21 @@ impl Parser {
     // must not include 'foo', even though the LLM generated 'foo'.
     // The bytes in 'foo' are therefore said to be "hidden".
     pub fn hidden_start(&self) -> usize {
+        #[cfg(feature = "verif_hooks")]
+        crate::verif_hooks::sched_point(crate::verif_hooks::SITE_SHARED_READ);
         let mut shared = self.shared.lock().unwrap();
         self.state.hidden_start(shared.lexer_mut())
     }
 
     pub fn lexer_stats(&self) -> LexerStats {
+        #[cfg(feature = "verif_hooks")]
+        crate::verif_hooks::sched_point(crate::verif_hooks::SITE_SHARED_READ);
         self.shared.lock().unwrap().lexer().dfa.stats()
     }
 
     pub fn get_error(&self) -> Option<ParserError> {
+        #[cfg(feature = "verif_hooks")]
+        crate::verif_hooks::sched_point(crate::verif_hooks::SITE_SHARED_READ);
         let shared = self.shared.lock().unwrap();
         if let Some(e) = shared.lexer().dfa.get_error() {
             return Some(ParserError::LexerError(e));
@@ -2879,11 +2894,20 @@ impl Parser {
     }
 
     fn with_shared<T>(&mut self, f: impl FnOnce(&mut ParserState) -> T) -> T {
+        #[cfg(feature = "verif_hooks")]
+        crate::verif_hooks::sched_point(crate::verif_hooks::SITE_SHARED_BEFORE_LOCK);
         let mut shared = self.shared.lock().unwrap();
+        #[cfg(feature = "verif_hooks")]
+        crate::verif_hooks::sched_point(crate::verif_hooks::SITE_SHARED_LOCKED);
         self.state.shared_box = std::mem::take(&mut *shared);
         let r = f(&mut self.state);
         *shared = std::mem::take(&mut self.state.shared_box);
         assert!(shared.lexer_opt.is_some());
+        #[cfg(feature = "verif_hooks")]
+        {
+            drop(shared);
+            crate::verif_hooks::sched_point(crate::verif_hooks::SITE_SHARED_RELEASED);
+        }
         r
     }
 
@@ -2949,6 +2973,8 @@ impl Parser {
 
     pub fn deep_clone(&self) -> Self {
         let mut copy = self.clone();
+        #[cfg(feature = "verif_hooks")]
+        crate::verif_hooks::sched_point(crate::verif_hooks::SITE_DEEP_CLONE);
         let shared = self.shared.lock().unwrap();
         copy.shared = Arc::new(Mutex::new(shared.clone()));
         copy
